@@ -41,6 +41,17 @@ def graphs(tier, rng):
     out.append((3, [[1], [1], []]))                     # self import below the root
     out.append((5, [[1, 2], [3], [3], [4], []]))
     out.append((7, [[1, 2], [3, 4], [3, 4], [5, 6], [5, 6], [], []]))    # ladder: exponential for a DFS without memo
+    # a file imported by MANY others (in-degree 2..5), directly from the root too or not: acyclic, must never be reported as a cycle
+    for k in (2, 3, 4, 5):
+        n = k + 2
+        out.append((n, [list(range(1, n))] + [[n - 1] for _ in range(k)] + [[]]))          # root -> x1..xk, common; xi -> common
+        out.append((n, [list(range(1, n - 1))] + [[n - 1] for _ in range(k)] + [[]]))      # root -> x1..xk; xi -> common
+    # layered DAGs, every file importing every file of the next layer; dense random DAGs (edges only forward)
+    out.append((7, [[1, 2, 3], [4, 5, 6], [4, 5, 6], [4, 5, 6], [], [], []]))
+    out.append((7, [[1, 2], [3, 4], [3, 4], [5, 6], [5, 6], [6], []]))
+    for _ in range(30 if tier == "thorough" else 8):
+        n = 4 + rng.below(4)
+        out.append((n, [[j for j in range(i + 1, n) if rng.below(2)] for i in range(n)]))
     out.append((2, [[1, "x"], []]))
     out.append((3, [[1], [2, "x"], []]))
     for _ in range(60 if tier == "thorough" else 15):
@@ -75,7 +86,7 @@ def layout_files(d, n, adj, pkgs, placement):
 def check(tier, seed, replay=None):
     run = Run("C18", tier, seed)
     run.cov["rule"] = ("import graphs: ALL directed graphs on <= 3 files (self imports, root re-imported; quick: every third 3-node graph) + diamonds, ladders, cycles below the root, "
-                       "missing files, random graphs on 4-8 files; files placed in nested directories with imports written relative to the importing file; go_package assignments "
+                       "missing files, files imported by 2-5 others, layered and dense random DAGs, random graphs on 4-8 files; files placed in nested directories with imports written relative to the importing file; go_package assignments "
                        "(distinct, shared between files, absent); both import modes; through the public File.Generate on real files. Observables: ok / cycle error / other error, the set of "
                        "generated type names - compared with the extracted worklist + cycle-search model and with the direct reading of the property (cycle error iff the package graph "
                        "reachable from the root is cyclic; combined mode defines exactly the types of the transitive closure, once each); distinct = distinct (graph, placement, packages, mode)")
